@@ -141,6 +141,51 @@ def one_world(args):
         if cfg["raw_mode"] and not real_z:
             # send_raw cuts a frame at 4096 bytes; the real zlib then refuses the cut image, the transparent test compression would not
             sizes = [n for n in sizes if n <= 3000]
+        if scenario == "chimera":
+            # the 3-bit upstream sequence number wraps while the server still holds fragment 0 of an abandoned packet: an upstream blackout starts
+            # right after fragment 0 of packet A arrived, seven more packets are given up, the next packet B gets A's sequence number again; its
+            # fragment 0 is taken for a duplicate, the rest is appended to A's fragment 0.  A and B are crafted so that the spliced image inflates
+            # (stored deflate blocks, equal lengths, equal Adler-32 of the differing prefixes): real zlib, nothing but loss on the network.
+            import zlib
+            def srv_in():
+                sl = next((x.slots for x in reversed(w.s.steps[-5:]) if x.slots), {})
+                return sl.get(0, {}).get("in", "0/0/0/0/0")
+            def cli_out():
+                return w.c_state.get("out", "0/0/0/0/0/0")
+            n = 700
+            cal = C.ip_packet(0x08080808, bytes(rng.randrange(256) for _ in range(n)), src_ip=CLIENT_TUN_IP, ident=1)
+            sent_c.append((w.ms, cal)); w.offer_to_client(cal); w.pump_tun()
+            w.run_until(lambda: cli_out().split("/")[2] != "0", 5000)
+            fs_up = int(cli_out().split("/")[2])
+            w.settle(8000)
+            pre = fs_up - 7                      # frame bytes inside fragment 0 of a stored-block image (2 + 5 header bytes)
+            A = bytearray(C.ip_packet(0x08080808, bytes(rng.randrange(256) for _ in range(n)), src_ip=CLIENT_TUN_IP, ident=2))
+            B = bytearray(C.ip_packet(0x08080808, bytes(rng.randrange(256) for _ in range(n)), src_ip=CLIENT_TUN_IP, ident=2))
+            if pre > 60:
+                B[:pre] = A[:pre]
+                p_ = 40
+                while p_ + 2 < pre and not (A[p_] < 255 and A[p_ + 1] > 1 and A[p_ + 2] < 255):
+                    p_ += 1
+                B[p_], B[p_ + 1], B[p_ + 2] = A[p_] + 1, A[p_ + 1] - 2, A[p_ + 2] + 1
+            A, B = bytes(A), bytes(B)
+            out["chimera"] = {"fs_up": fs_up, "spliced_is_neither": (A[:pre] + B[pre:]) not in (A, B), "adler_equal": zlib.adler32(A[:pre] + B[pre:]) == zlib.adler32(B)}
+            before = srv_in()
+            sent_c.append((w.ms, A)); w.offer_to_client(A); w.pump_tun()
+            w.run_until(lambda: srv_in() != before and srv_in().split("/")[0] != "0", 5000)
+            w.blackout, w.faulty_until = "up", w.ms + 10 ** 9
+            t_black = w.ms
+            w.run_until(lambda: cli_out().split("/")[0] == "0", 20000)
+            for i in range(7):
+                f = C.ip_packet(0x08080808, bytes(rng.randrange(256) for _ in range(20)), src_ip=CLIENT_TUN_IP, ident=10 + i)
+                sent_c.append((w.ms, f)); w.offer_to_client(f); w.pump_tun()
+                w.run_until(lambda: cli_out().split("/")[0] != "0", 3000)
+                w.run_until(lambda: cli_out().split("/")[0] == "0", 20000)
+            w.faulty_until, w.blackout = w.ms, None
+            out["blackout_ms"] = w.ms - t_black
+            w.settle(6000)
+            sent_c.append((w.ms, B)); w.offer_to_client(B); w.pump_tun()
+            w.settle(10000)
+            nframes = 0
         if scenario == "silence":
             # nothing gets through in either direction any more: the client must give up when its 60 s are over (and not before); no delivery
             # requirement - this run is for the model comparison (the exact second of the give-up, the last pings)
@@ -867,8 +912,10 @@ def max_fragments(res, frame, upstream):
 
 def replay_world(path):
     """replay a recorded world log (lines `S <op>` / `C <op>`) against fresh harness processes; prints both sides' answers"""
-    srv = world.srvgen.Harness(vlib.build_srv())
-    cli = world.CliProc(vlib.build_cli())
+    import os
+    rz = os.environ.get("VERIF_REPLAY_Z") == "real"
+    srv = world.srvgen.Harness(vlib.build_srv(), rz)
+    cli = world.CliProc(vlib.build_cli(), rz)
     for l in open(path):
         l = l.rstrip("\n")
         if not l or l.startswith("#") or l.startswith("N "):
@@ -877,8 +924,14 @@ def replay_world(path):
         if side == "S":
             st = srv.send(op)
             print("S", op[:90], "->", (st.line.split(" | st")[0][:200] if st else "<dead>"))
+            for e in (st.events if st else []):
+                if e[0] == "tunw":
+                    print("    SERVER WROTE TO TUN:", len(e[1]) // 2, "bytes", e[1][:80])
         else:
             line = cli.send(op)
             print("C", op[:90], "->", (line.split(" | st")[0][:200] if line else "<dead>"))
+            for part in (line or "").split(" | "):
+                if part.startswith("tunw "):
+                    print("    CLIENT WROTE TO TUN:", (len(part) - 5) // 2, "bytes", part[5:85])
     srv.close(); cli.close()
     return (srv.dead, cli.dead)
